@@ -74,6 +74,26 @@ pub fn material(proto: Proto, seed: &[u8; 32]) -> KeyMaterial {
   KeyMaterial::new(proto, Some(&sk), &pk).expect("derived key material has the right shape")
 }
 
+/// Key material whose PRIVATE half cannot sign (public protocols only; None for local ones): an Ed25519 secret whose two
+/// halves do not belong together, the zero scalar for P-384, bytes that are no PKCS#8 document for RSA.
+pub fn unusable_signing_material(proto: Proto, seed: &[u8; 32]) -> Option<KeyMaterial> {
+  let (sk, pk) = key_bytes(proto, seed);
+  let bad: Vec<u8> = match proto {
+    Proto::V2P | Proto::V4P => {
+      let mut other = *seed;
+      other[0] ^= 0xff;
+      let (sk2, _) = ed_from_seed(&other);
+      let mut b = sk2[..32].to_vec();
+      b.extend_from_slice(&sk[32..]);
+      b
+    }
+    Proto::V3P => vec![0u8; 48],
+    Proto::V1P => b"-----this is not a PKCS#8 document-----".to_vec(),
+    _ => return None,
+  };
+  KeyMaterial::new(proto, Some(&bad), &pk).ok()
+}
+
 pub fn seed32(v: &[u8]) -> [u8; 32] {
   let mut s = [0u8; 32];
   for (i, b) in v.iter().enumerate() {
